@@ -55,7 +55,7 @@ pub fn with_shared<R>(f: impl FnOnce(&mut Shared) -> R) -> R {
     SHARED.with(|s| f(s.borrow_mut().as_mut().expect("host not running")))
 }
 
-fn trunc(s: &str, n: usize) -> String {
+pub fn trunc(s: &str, n: usize) -> String {
     if s.len() <= n {
         s.to_string()
     } else {
@@ -79,7 +79,7 @@ pub fn slot_compatible(slot: Slot, core: CoreTy) -> bool {
     }
 }
 
-fn check_sig(slots: &[Slot], core: &[CoreTy]) -> Result<(), String> {
+pub fn check_sig(slots: &[Slot], core: &[CoreTy]) -> Result<(), String> {
     if slots.len() != core.len() {
         return Err(format!("generated signature has {} flat slots {:?}, the canonical ABI has {} {:?}", slots.len(), slots, core.len(), core));
     }
@@ -193,6 +193,11 @@ pub struct Host<'a> {
     pub verbose: bool,
     pub class_cache: BTreeMap<String, String>,
     pub keyed: std::collections::BTreeSet<String>,
+    /// C08 differential: key of the running call (`dir|module|name|k`, set by the
+    /// caller) and every mismatch / heap imbalance observed, as
+    /// (`<call key>|<what>|<index>`, observed text) — the reference dump of a sync run
+    pub call_key: String,
+    pub mismatches: Vec<(String, String)>,
 }
 
 impl<'a> Host<'a> {
@@ -222,7 +227,7 @@ impl<'a> Host<'a> {
         }
     }
 
-    fn replay(&self, f: &Func, extra: Value) -> Value {
+    pub fn replay(&self, f: &Func, extra: Value) -> Value {
         json!({"world": self.world_tag, "seed": self.seed, "call": self.call_no, "func": f.symbol(), "dir": f.dir.name(),
                "opts": serde_json::from_str::<Value>(self.tables.opts).unwrap_or(Value::Null), "wit": self.tables.wit, "detail": extra})
     }
@@ -238,7 +243,7 @@ impl<'a> Host<'a> {
         c
     }
 
-    fn heap_class_uncached(&self, f: &Func) -> String {
+    pub fn heap_class_uncached(&self, f: &Func) -> String {
         let mut ps: Vec<String> = f.params.iter().filter(|t| self.abi.contains_heap(t)).map(|t| plan::shape_class(&self.abi, t, 0)).collect();
         ps.sort();
         ps.dedup();
@@ -266,6 +271,9 @@ impl<'a> Host<'a> {
                 self.rep.inconclusive("a NaN payload changed across the boundary (canonicalisation is permitted)");
             }
             other => {
+                if !self.call_key.is_empty() {
+                    self.mismatches.push((format!("{}|{}|{}", self.call_key, what, index), observed.to_string()));
+                }
                 // classify by the part of the value that actually differs
                 let class = match (norm::parse(expected), norm::parse(observed)) {
                     (Ok(a), Ok(b)) => plan::diff_class(&self.abi, ty, &a, &b),
@@ -295,7 +303,7 @@ impl<'a> Host<'a> {
         }
     }
 
-    fn fail(&mut self, f: &Func, what: &str, ty: Option<&Type>, msg: &str) {
+    pub fn fail(&mut self, f: &Func, what: &str, ty: Option<&Type>, msg: &str) {
         let class = ty.map(|t| plan::shape_class(&self.abi, t, 0)).unwrap_or_else(|| "-".into());
         // a lift failure cannot be localised: if the signature has a fixed-length list with heap elements, name that
         let fclass = plan::focus(&self.heap_class(f));
@@ -314,7 +322,7 @@ impl<'a> Host<'a> {
         GenCfg { max_list: self.max_list, ..GenCfg::default() }
     }
 
-    fn gen_args(&mut self, f: &Func, big: bool) -> (Vec<Val>, bool) {
+    pub fn gen_args(&mut self, f: &Func, big: bool) -> (Vec<Val>, bool) {
         let cfg = self.gen_cfg();
         let mut used_big = false;
         let mut out = vec![];
@@ -331,7 +339,7 @@ impl<'a> Host<'a> {
         (out, used_big)
     }
 
-    fn gen_result(&mut self, f: &Func, big: bool) -> (Option<Val>, bool) {
+    pub fn gen_result(&mut self, f: &Func, big: bool) -> (Option<Val>, bool) {
         let cfg = self.gen_cfg();
         match &f.result {
             None => (None, false),
@@ -346,7 +354,7 @@ impl<'a> Host<'a> {
         }
     }
 
-    fn workload(&mut self, vals: &[Val]) {
+    pub fn workload(&mut self, vals: &[Val]) {
         let (mut l, mut e, mut s, mut m) = (0, 0, 0, 0);
         for v in vals {
             plan::count_nodes(v, &mut l, &mut e, &mut s, &mut m);
@@ -364,6 +372,9 @@ impl<'a> Host<'a> {
         self.rep.count("heap_balance_checks");
         if before == after || kept {
             return;
+        }
+        if !self.call_key.is_empty() {
+            self.mismatches.push((format!("{}|balance|0", self.call_key), format!("{},{}", after.blocks - before.blocks, after.bytes - before.bytes)));
         }
         let blocks = alloc::tracked_blocks(12);
         let kind = if after.blocks > before.blocks || after.bytes > before.bytes { "leak" } else { "over-free" };
@@ -530,7 +541,7 @@ impl<'a> Host<'a> {
         }
     }
 
-    fn sample(&mut self, f: &Func, args: &[String], result: Option<&str>) {
+    pub fn sample(&mut self, f: &Func, args: &[String], result: Option<&str>) {
         if self.samples_left > 0 && (f.params.len() > 1 || result.map(|r| r.len() > 8).unwrap_or(false)) {
             self.samples_left -= 1;
             self.rep.sample(json!({"world": self.world_tag, "dir": f.dir.name(), "func": f.symbol(), "opts": self.tables.opts,
@@ -710,6 +721,8 @@ pub fn run(tables: &'static Tables) {
         verbose: args.get("verbose").is_some(),
         class_cache: BTreeMap::new(),
         keyed: Default::default(),
+        call_key: String::new(),
+        mismatches: vec![],
     };
     match mode.as_str() {
         "values" => run_values(&mut host, sets),
